@@ -10,16 +10,15 @@ import (
 	"github.com/rogpeppe/go-internal/txtar"
 	xtxtar "golang.org/x/tools/txtar"
 
+	"verif/harness/internal/corr"
 	"verif/harness/internal/mdl"
 )
 
-func init() { subcmds["txtar"] = runTxtar }
-
 func showArchive(a *txtar.Archive) string {
 	var sb strings.Builder
-	sb.WriteString("c:" + hx(a.Comment))
+	sb.WriteString("c:" + corr.Hx(a.Comment))
 	for _, f := range a.Files {
-		sb.WriteString(";f:" + hx([]byte(f.Name)) + ":" + hx(f.Data))
+		sb.WriteString(";f:" + corr.Hx([]byte(f.Name)) + ":" + corr.Hx(f.Data))
 	}
 	return sb.String()
 }
@@ -48,7 +47,7 @@ func safeNeedsQuote(d []byte) (s string, v bool, panicked bool) {
 
 func showQ(b []byte, err error) string {
 	if err == nil {
-		return "ok:" + hx(b)
+		return "ok:" + corr.Hx(b)
 	}
 	switch {
 	case strings.Contains(err.Error(), "no final newline"):
@@ -75,7 +74,7 @@ func txtarImplLine(d []byte) string {
 	if !panicked {
 		ps = showArchive(p)
 		f := txtar.Format(p)
-		fs = hx(f)
+		fs = corr.Hx(f)
 		if p2, pk := safeParse(f); !pk {
 			pfps = showArchive(p2)
 		}
@@ -85,7 +84,7 @@ func txtarImplLine(d []byte) string {
 	u, uerr := txtar.Unquote(append([]byte{}, d...))
 	r := xtxtar.Parse(d)
 	return "P=" + ps + " F=" + fs + " PFP=" + pfps + " NQ=" + nq + " Q=" + showQ(q, qerr) + " U=" + showQ(u, uerr) +
-		" R=" + showArchive(r) + " T=" + hx([]byte(strings.TrimSpace(string(d))))
+		" R=" + showArchive(r) + " T=" + corr.Hx([]byte(strings.TrimSpace(string(d))))
 }
 
 // independent definition of "marker line" for the well-formedness predicate of the statement.
@@ -119,29 +118,29 @@ func equalArchive(a, b *txtar.Archive) bool {
 }
 
 // txtarOracle checks C03 and C14 directly on the implementation for one byte string.
-func txtarOracle(res *Result, d []byte) {
-	in := hx(d)
+func txtarOracle(res *corr.Result, d []byte) {
+	in := corr.Hx(d)
 	// ---- C03
 	res.OracleChecked["C03"]++
 	p, panicked := safeParse(d)
 	if panicked {
-		res.violate("C03", in, "txtar.Parse panics", "parse-panic")
+		res.Violate("C03", in, "txtar.Parse panics", "parse-panic")
 	} else {
 		f := txtar.Format(p)
 		p2, pk := safeParse(f)
 		if pk {
-			res.violate("C03", in, "Parse(Format(Parse(x))) panics", "reparse-panic")
+			res.Violate("C03", in, "Parse(Format(Parse(x))) panics", "reparse-panic")
 		} else if !equalArchive(p, p2) {
 			class := "reparse-differs"
 			if bytes.HasSuffix(d, []byte("\r")) {
 				class = "reparse-differs-cr-at-eof"
 			}
-			res.violate("C03", in, "Parse(Format(Parse(x))) != Parse(x): "+showArchive(p)+" vs "+showArchive(p2), class)
+			res.Violate("C03", in, "Parse(Format(Parse(x))) != Parse(x): "+showArchive(p)+" vs "+showArchive(p2), class)
 		}
 		if !bytes.Contains(d, []byte("\r")) {
 			r := xtxtar.Parse(d)
 			if !equalArchive(p, r) {
-				res.violate("C03", in, "differs from x/tools reference on CR-free input: "+showArchive(p)+" vs "+showArchive(r), "ref-differs")
+				res.Violate("C03", in, "differs from x/tools reference on CR-free input: "+showArchive(p)+" vs "+showArchive(r), "ref-differs")
 			}
 		}
 		// CRLF recognised like LF, on inputs where every CR is directly followed by LF.
@@ -163,7 +162,7 @@ func txtarOracle(res *Result, d []byte) {
 					}
 				}
 				if !same {
-					res.violate("C03", in, "CRLF marker lines not recognised like LF ones", "crlf-differs")
+					res.Violate("C03", in, "CRLF marker lines not recognised like LF ones", "crlf-differs")
 				}
 			}
 		}
@@ -172,7 +171,7 @@ func txtarOracle(res *Result, d []byte) {
 	res.OracleChecked["C14"]++
 	_, nq, nqPanic := safeNeedsQuote(d)
 	if nqPanic {
-		res.violate("C14", in, "txtar.NeedsQuote panics", "needsquote-panic")
+		res.Violate("C14", in, "txtar.NeedsQuote panics", "needsquote-panic")
 	} else {
 		a := &txtar.Archive{Files: []txtar.File{{Name: "f", Data: d}}}
 		pp, pk := safeParse(txtar.Format(a))
@@ -183,7 +182,7 @@ func txtarOracle(res *Result, d []byte) {
 				if !nq && !bytes.HasSuffix(d, []byte("\n")) {
 					class = "needsquote-false-last-line-marker"
 				}
-				res.violate("C14", in, fmt.Sprintf("NeedsQuote=%v but body-safe=%v", nq, safe), class)
+				res.Violate("C14", in, fmt.Sprintf("NeedsQuote=%v but body-safe=%v", nq, safe), class)
 			}
 		}
 	}
@@ -191,19 +190,19 @@ func txtarOracle(res *Result, d []byte) {
 	if qerr == nil {
 		u, uerr := txtar.Unquote(append([]byte{}, q...))
 		if uerr != nil || !bytes.Equal(u, d) {
-			res.violate("C14", in, "Unquote(Quote(d)) != d", "unquote-quote")
+			res.Violate("C14", in, "Unquote(Quote(d)) != d", "unquote-quote")
 		}
 		if _, v, pk := safeNeedsQuote(q); pk || v {
-			res.violate("C14", in, "Quote(d) needs quoting", "quoted-needs-quote")
+			res.Violate("C14", in, "Quote(d) needs quoting", "quoted-needs-quote")
 		}
 		a := &txtar.Archive{Files: []txtar.File{{Name: "f", Data: q}}}
 		if pp, pk := safeParse(txtar.Format(a)); pk || len(pp.Files) != 1 || !bytes.Equal(pp.Files[0].Data, q) || pp.Files[0].Name != "f" || len(pp.Comment) != 0 {
-			res.violate("C14", in, "Quote(d) does not survive Format/Parse", "quoted-not-stable")
+			res.Violate("C14", in, "Quote(d) does not survive Format/Parse", "quoted-not-stable")
 		}
 	} else {
 		// must only refuse unrepresentable data: no final newline or invalid UTF-8
 		if (len(d) == 0 || d[len(d)-1] == '\n') && utf8.Valid(d) {
-			res.violate("C14", in, "Quote refuses representable data: "+qerr.Error(), "quote-refuses")
+			res.Violate("C14", in, "Quote refuses representable data: "+qerr.Error(), "quote-refuses")
 		}
 	}
 }
@@ -231,9 +230,9 @@ func wfImplLine(a *txtar.Archive) string {
 	f := txtar.Format(a)
 	p, pk := safeParse(f)
 	if pk {
-		return "F=" + hx(f) + " P=panic"
+		return "F=" + corr.Hx(f) + " P=panic"
 	}
-	return "F=" + hx(f) + " P=" + showArchive(p)
+	return "F=" + corr.Hx(f) + " P=" + showArchive(p)
 }
 
 var txtarAlpha6 = []byte{'-', ' ', '\n', '\r', 'a', '>'}
@@ -298,8 +297,8 @@ func randArchive(r *rand.Rand, wfBias bool) *txtar.Archive {
 	return a
 }
 
-func runTxtar(tier string, seed int64, model string, replay string) *Result {
-	res := newResult("txtar", tier, seed)
+func runTxtar(tier string, seed int64, model string, replay string) *corr.Result {
+	res := corr.NewResult("txtar", tier, seed)
 	r := rand.New(rand.NewSource(seed))
 
 	var inputs [][]byte
@@ -311,7 +310,7 @@ func runTxtar(tier string, seed int64, model string, replay string) *Result {
 		}
 	}
 	if replay != "" {
-		add(unhx(replay))
+		add(corr.Unhx(replay))
 	} else {
 		// corpus first: witnesses of past findings
 		for _, s := range []string{"-- --", "-- a --\r", "-- x --", "a\n-- x --", "-- --\n", "x\n-- --", "-- a --\r\n", "-- a --\r\r\n", "--  --\n", "--   --\n"} {
@@ -336,7 +335,7 @@ func runTxtar(tier string, seed int64, model string, replay string) *Result {
 	}
 	cases := make([]string, len(inputs))
 	for i, d := range inputs {
-		cases[i] = "all " + hx(d)
+		cases[i] = "all " + corr.Hx(d)
 	}
 	// well-formed / arbitrary archives through Format then Parse
 	var archives []*txtar.Archive
@@ -356,14 +355,14 @@ func runTxtar(tier string, seed int64, model string, replay string) *Result {
 	modelOut, err := mdl.Run(model, nil, cases, 0)
 	if err != nil {
 		res.Observations = append(res.Observations, "model driver error: "+err.Error())
-		res.disagree("<driver>", "", err.Error())
+		res.Disagree("<driver>", "", err.Error())
 		return res
 	}
 	nontrivial := 0
 	for i, d := range inputs {
 		impl := txtarImplLine(d)
 		if impl != modelOut[i] {
-			res.disagree(cases[i], impl, modelOut[i])
+			res.Disagree(cases[i], impl, modelOut[i])
 		}
 		txtarOracle(res, d)
 		if bytes.HasPrefix(d, []byte("-- ")) || bytes.Contains(d, []byte("\n-- ")) {
@@ -385,7 +384,7 @@ func runTxtar(tier string, seed int64, model string, replay string) *Result {
 		i := len(inputs) + j
 		impl := wfImplLine(a)
 		if impl != modelOut[i] {
-			res.disagree(cases[i], impl, modelOut[i])
+			res.Disagree(cases[i], impl, modelOut[i])
 		}
 		if wellFormedIndep(a) {
 			wf++
@@ -393,7 +392,7 @@ func runTxtar(tier string, seed int64, model string, replay string) *Result {
 			p, pk := safeParse(txtar.Format(a))
 			norm := &txtar.Archive{Comment: a.Comment, Files: a.Files}
 			if pk || !equalArchive(p, norm) {
-				res.violate("C03", "wf "+encArchive(a), "Parse(Format(a)) != a for well-formed a", "format-parse-wf")
+				res.Violate("C03", "wf "+encArchive(a), "Parse(Format(a)) != a for well-formed a", "format-parse-wf")
 			}
 		}
 	}
